@@ -131,15 +131,26 @@ func (ctx Context) createFirstLinePango(layout *text.TextLayoutPango,
 
 		runDst := &output.Runs[len(output.Runs)-1]
 
-		// Positions of the glyphs in the UTF-8 string
-		utf8Positions := make([]int, len(glyphString.Glyphs)-1)
-		for i := range utf8Positions {
-			utf8Positions[i] = offset + glyphString.LogClusters[i+1]
+		// Positions of the glyphs in the text : a glyph covers the text from
+		// the start of its cluster to the start of the next cluster in
+		// logical order, which is the next glyph in a left-to-right run and
+		// the previous one in a right-to-left run
+		runEnd := offset + glyphItem.Item.Length
+		isRTL := glyphItem.Item.Analysis.Level%2 == 1
+		textRange := func(i int) (start, end int) {
+			start, end = offset+glyphString.LogClusters[i], runEnd
+			if isRTL && i > 0 {
+				end = offset + glyphString.LogClusters[i-1]
+			} else if !isRTL && i+1 < len(glyphString.Glyphs) {
+				end = offset + glyphString.LogClusters[i+1]
+			}
+			if end < start { // defensive : never a negative length
+				end = start
+			}
+			return start, end
 		}
-		utf8Positions = append(utf8Positions, offset+glyphItem.Item.Length)
 
 		runDst.Glyphs = make([]backend.TextGlyph, len(glyphString.Glyphs))
-		var prevUtf8Position int
 		for i, glyphInfo := range glyphString.Glyphs {
 			outGlyph := &runDst.Glyphs[i]
 			width := glyphInfo.Geometry.Width
@@ -183,12 +194,11 @@ func (ctx Context) createFirstLinePango(layout *text.TextLayoutPango,
 			outGlyph.Kerning = int(pr.Fl(outFont.Extents[outGlyph.Glyph].Width) - text.PangoUnitsToFloat(width*1000)/fontSize + outGlyph.Offset)
 
 			// Mapping between glyphs and characters
-			utf8Position := utf8Positions[i]
-			outGlyph.TextOffset, outGlyph.TextLength = prevUtf8Position, utf8Position-prevUtf8Position
+			start, end := textRange(i)
+			outGlyph.TextOffset, outGlyph.TextLength = start, end-start
 			if _, in := outFont.Cmap[outGlyph.Glyph]; !in {
-				outFont.Cmap[outGlyph.Glyph] = textRunes[prevUtf8Position:utf8Position]
+				outFont.Cmap[outGlyph.Glyph] = textRunes[start:end]
 			}
-			prevUtf8Position = utf8Position
 
 			// advance
 			outGlyph.XAdvance = xAdvance
